@@ -46,7 +46,7 @@ TASK: make ONE small change to the library source in /tmp/wt/{lo} (non-test file
  2. the property above is violated for SOME execution;
  3. the violation needs something specific to manifest: {hint[pid]}. NOT something ordinary use exposes at once.
 {av}
-Also write a DEMONSTRATION that fails with your change and passes without it: a Go test file named demo_test.go (test function names starting with TestDemo) placed in /tmp/wt/out-{lo}/, to be copied into the package directory. If the defect needs a specific interleaving, fault or internal random choice, the demo may force it deterministically (controlled call order, many iterations with a high hit rate, white-box access from inside the package, or go test -race - say so in meta.json). Verify yourself: the demo fails with the change applied and passes on the unmodified code (`git stash` / `git stash pop` to switch).
+Also write a DEMONSTRATION that fails with your change and passes without it: a Go test file named demo_test.go (test function names starting with TestDemo) placed in /tmp/wt/out-{lo}/, to be copied into the package directory. If the defect needs a specific interleaving, fault or internal random choice, the demo may force it deterministically (controlled call order, many iterations with a high hit rate, white-box access from inside the package, or go test -race - say so in meta.json). Verify yourself: the demo fails with the change applied and passes on the unmodified code (reverse-apply your saved diff to switch; never use git stash).
 
 Deliver in /tmp/wt/out-{lo}/:
  - patch.diff : `git diff` of your change to the library (library source only; applies with `git apply` to a clean checkout of the same commit);
